@@ -381,6 +381,26 @@ def rule_consulted_every_step(chk):
                detail_bad='some path proposes the next step without calling _compute_timestep(): a stale step (e.g. the one saved before a '
                           'step shortened to an output time) is reused although the criteria have tightened',
                detail_ok='every continuing path calls _compute_timestep()')
+    # after the criteria have been consulted the proposed step may only be shortened: the one adjustment allowed is landing on the final time,
+    # and only when the step would otherwise pass tf - epsilon (so the step grows by at most epsilon, never to a multiple of itself)
+    from verif_static import norm as N
+    M.set_parents(gt)
+    rv = set(U(r.value) for r in ast.walk(gt) if isinstance(r, ast.Return) and isinstance(r.value, ast.Name))
+    last = max([g.nodes[c_].ast.lineno for c_ in comp] or [0])
+    for a in ast.walk(gt):
+        if isinstance(a, (ast.Assign, ast.AugAssign)) and a.lineno > last:
+            tg = U(a.targets[0]) if isinstance(a, ast.Assign) else U(a.target)
+            if tg not in rv:
+                continue
+            if isinstance(a, ast.Assign) and any((M.call_name(c_) or '') in ('self._damp_timestep', 'self._compute_timestep') for c_ in M.calls(a)):
+                continue
+            gi = M.enclosing(a, (ast.If,))
+            ok = isinstance(a, ast.Assign) and N.same(a.value, 'self.tf - self.t') and gi is not None and a in gi.body and \
+                N.same(gi.test, 'self.t + %s > self.tf - self._epsilon' % tg, 'self.t + %s >= self.tf - self._epsilon' % tg)
+            chk.decide(ok, 'fallback-to-fixed-step', 'stable-step-only-shortened:%s' % U(a)[:40], node=a, file=SOL, func='Solver._get_timestep',
+                       detail_bad='after the stability criteria were applied the step is changed by `%s` under `%s`: only `dt = tf - t` when t + dt > tf - epsilon is allowed '
+                                  '(any wider window lets the last step exceed the stable step)' % (U(a), U(gi.test) if gi is not None else 'no guard'),
+                       detail_ok='dt = tf - t only when t + dt would pass tf - epsilon')
     sv = M.find_method(t, 'Solver', 'solve')
     nxt = [a for a in ast.walk(sv) if isinstance(a, ast.Assign) and U(a.targets[0]) == 'self.dt' and M.call_name(a.value) == 'self._get_timestep']
     chk.decide(len(nxt) == 2, 'fallback-to-fixed-step', 'solver-asks-before-every-step', node=sv, file=SOL, func='Solver.solve',
